@@ -119,6 +119,10 @@ def main():
         unit_ok = r['status'] != 'undecided' or bool(r['failed'] or r['panic'])
         unit_summ.append(dict(unit=r['unit'], status=r['status'], verified=r.get('verified'), errors=r.get('errors'), passes=r.get('passes'), dropped_hints=r.get('dropped_hints'), lost_hints=r.get('lost_hints'),
                               wall_s=r['wall_s'], gen_lines=r.get('gen_lines'), notes=[n[:300] for n in r['notes']]))
+        if r.get('not_judged') and r['status'] != 'undecided':
+            # some obligations of this unit were not judged (unknown callee / lost proof steps) while others failed or
+            # held: the ones not judged are neither discharged nor violated
+            undecided.append((r['unit'], [n for n in r['notes'] if 'not judged' in n or 'not discharged' in n] or r['notes']))
         if r['status'] == 'undecided' and not (r['failed'] or r['panic'] or r['termination']):
             undecided.append((r['unit'], r['notes']))
         elif r['notes']:
@@ -131,7 +135,7 @@ def main():
             if prop not in c['props']:
                 continue
             obligations += 1
-            ok = cid not in r['failed'] and r['status'] != 'undecided'
+            ok = cid not in r['failed'] and r['status'] != 'undecided' and cid not in (r.get('not_judged') or [])
             if cid in r['failed']:
                 failed_fns.add(c['fn'])
                 if cid in open_findings:
